@@ -317,7 +317,8 @@ def run(ctx):
     res["clauses"] = {
         "theorem": ["get_time: string surgery + parse = ((3600h+60m+s)+(ff+k)/30) * rate * 10^6 - offset, floored at 0, "
                     "for all well-formed timecodes, frame counts, offsets",
-                    "popon_times: for whole programs over the full item domain, one load per line, EDM lines anywhere, "
+                    "popon_times: for whole programs over the full item domain, one load per line, EDM lines anywhere (and every "
+                    "re-layout of these lines that keeps the instant of each word: popon_times_layout / _cuts / _merged / _text), "
                     "positive instants: spans = the statement's spans of the EOC / EDM instants (composed with "
                     "get_time_exact for rendered timecodes: C06_read_is_statement_spans); start <= end and ordered "
                     "starts of what read returns there",
